@@ -491,6 +491,8 @@ def retag(qp, C26, gen, spec, name, mech, ms):
             return "default.clifford:probs-wire-order"
         if "AttributeError" in mech and "var" in kinds:
             return "default.clifford:var-missing-kwargs"
+    if name == "default.mixed" and spec.get("batch") == 1 and "raw-execute" in mech:
+        return "batch1:default.mixed"  # a broadcast batch of size 1 is not expanded by the mixed-state kernels (same as C28)
     if name.startswith("default.tensor") and mech.startswith("equivalent:"):
         # a value mismatch of default.tensor alone that none of the root-caused mechanisms above explains
         return "default.tensor:result-mismatch:unrooted"
